@@ -110,6 +110,12 @@ DIRECTED_DOCS = [
     # are part of the want
     '>>> print("%5d" % 42)\n   42\n>>> x = 1\n>>> print("  1 one", " 10 ten", sep=chr(10))\n  1 one\n 10 ten\n',
     '>>> x = 3\n>>> print("    deep")\n    deep\n\nprose between\n\n>>> print("  a", "    b", sep=chr(10))\n  a\n    b\n>>> y = 2\n',
+    # a block that freeform collection leaves out, holding code and wants, in front of the doctest: its lines count for the
+    # position of what follows (entry: text, want lines of the doctest, text of the doctest's first line)
+    ('Summary.\n\nIgnore:\n    >>> hidden = [1,\n    ...           2]\n    >>> print(hidden)\n    [1, 2]\n    second line\n\nprose between\n\n'
+     '>>> shown = 1\n>>> print(shown)\n1\n>>> later = 2\n', ['1'], '>>> shown = 1'),
+    ('Script:\n    >>> print("a")\n    a\n    >>> print("b")\n    b\n\nprose between\n\n>>> first_real = 1\n>>> print(first_real + 1)\n2\n',
+     ['2'], '>>> first_real = 1'),
 ]
 
 
@@ -121,9 +127,14 @@ def check_case(ctx, index, case_seed, directed=None):
     if directed is not None:
         rng = random.Random(case_seed)
         doc = DIRECTED_DOCS[directed]
-        wl = [ln for ln in doc.split('\n') if ln and not ln.startswith(('>>>', '...')) and ln != 'prose between']
+        first_text = None
+        if isinstance(doc, tuple):
+            doc, wl, first_text = doc
+        else:
+            wl = [ln for ln in doc.split('\n') if ln and not ln.startswith(('>>>', '...')) and ln != 'prose between']
         layout, info = _FixedLayout(), {'style': 'freeform', 'features': [], 'wants': {0: wl}}
     else:
+        first_text = None
         rng, stmts, ref = gen_case(case_seed)
         layout, doc, info = layout_with_values(rng, stmts, ref)
     L = rng.choice([1, rng.randint(2, 9), rng.randint(10, 99), rng.randint(100, 999), rng.randint(1000, 2000)])
@@ -212,7 +223,7 @@ def check_case(ctx, index, case_seed, directed=None):
             ctx.cell('%s-mode' % e[2])
     # ------------------------------------------------ 3. line numbers, model free
     dlines = doc.expandtabs().split('\n')
-    first = next(i for i, ln in enumerate(dlines) if ln.lstrip().startswith('>>>'))
+    first = next(i for i, ln in enumerate(dlines) if (ln.lstrip().startswith('>>>') if first_text is None else ln == first_text))
 
     def matches(shown, docline):
         a = shown.strip()
@@ -287,7 +298,7 @@ def check_case(ctx, index, case_seed, directed=None):
             # in front of a source line stands its number, in front of a want line a blank number column (at least
             # two columns: room for a digit and the separating blank), so that a want is never read as a numbered line
             q = 0
-            first_prompt = next(i for i, ln in enumerate(dlines) if ln.lstrip().startswith('>>>'))
+            first_prompt = first
             for p in dt._parts:
                 nsrc = len(p.exec_lines)
                 n = nsrc + (len(p.want_lines or []) if wnt else 0)
